@@ -1,0 +1,185 @@
+//go:build verif
+
+package outlierdetection
+
+// Contracts checked by /verif (contract-based deductive verification).
+// This file is comment-only; it is compiled only with -tags=verif.
+
+//@ import time "time"
+//@ import connectivity "google.golang.org/grpc/connectivity"
+
+// ---- C40: ejection bookkeeping -------------------------------------------------------
+//
+// numEndpointsEjected is the number of endpoints in the map whose
+// latestEjectionTimestamp is non-zero. ejectEndpoint / unejectEndpoint keep it
+// so only if they are applied to an endpoint in the opposite state: ejecting an
+// endpoint that is already ejected would count it twice (and bump its
+// multiplier twice), so "not ejected yet" is a precondition that every call
+// site has to establish.
+
+// subchannel wrappers of an endpoint are created by NewSubConn with the
+// balancer's update buffer
+//@ spec func swsOK(epInfo *endpointInfo) bool {
+//@   return forall(func(j int) bool { return implies(0 <= j && j < len(epInfo.sws), epInfo.sws[j] != nil && epInfo.sws[j].scUpdateCh != nil) })
+//@ }
+
+//@ func (*subConnWrapper).eject
+//@   prop C40
+//@   requires scw != nil && scw.scUpdateCh != nil
+
+//@ func (*subConnWrapper).uneject
+//@   prop C40
+//@   requires scw != nil && scw.scUpdateCh != nil
+
+//@ func (*outlierDetectionBalancer).ejectEndpoint
+//@   prop C40
+//@   modifies b.numEndpointsEjected, epInfo.latestEjectionTimestamp, epInfo.ejectionTimeMultiplier
+//@   requires b != nil && epInfo != nil && swsOK(epInfo)
+//@   requires epInfo.latestEjectionTimestamp.IsZero()
+//@   loop 1 invariant swsOK(epInfo)
+//@   loop 1 invariant b.numEndpointsEjected == old(b.numEndpointsEjected) + 1 && epInfo.ejectionTimeMultiplier == old(epInfo.ejectionTimeMultiplier) + 1 && epInfo.latestEjectionTimestamp == b.timerStartTime
+//@   ensures b.numEndpointsEjected == old(b.numEndpointsEjected) + 1
+//@   ensures epInfo.ejectionTimeMultiplier == old(epInfo.ejectionTimeMultiplier) + 1
+//@   ensures epInfo.latestEjectionTimestamp == b.timerStartTime
+
+//@ func (*outlierDetectionBalancer).unejectEndpoint
+//@   prop C40
+//@   modifies b.numEndpointsEjected, epInfo.latestEjectionTimestamp
+//@   requires b != nil && epInfo != nil && swsOK(epInfo)
+//@   requires !epInfo.latestEjectionTimestamp.IsZero()
+//@   loop 1 invariant swsOK(epInfo)
+//@   loop 1 invariant b.numEndpointsEjected == old(b.numEndpointsEjected) - 1 && epInfo.latestEjectionTimestamp.IsZero()
+//@   ensures b.numEndpointsEjected == old(b.numEndpointsEjected) - 1
+//@   ensures epInfo.latestEjectionTimestamp.IsZero()
+//@   ensures epInfo.ejectionTimeMultiplier == old(epInfo.ejectionTimeMultiplier)
+
+// ---- C40: who is a candidate -----------------------------------------------------------
+//
+// Request volume of an endpoint in the interval just ended: successes + failures
+// of its inactive bucket (uint32 sum as the code computes it).
+
+//@ spec func rvOf(e *endpointInfo) uint32 {
+//@   return e.callCounter.inactiveBucket.numSuccesses + e.callCounter.inactiveBucket.numFailures
+//@ }
+//@ spec func epOK(e *endpointInfo) bool {
+//@   return e != nil && e.callCounter != nil && e.callCounter.inactiveBucket != nil && swsOK(e)
+//@ }
+//@ spec func allAtLeast(eps []*endpointInfo, rv uint32) bool {
+//@   return forall(func(j int) bool { return implies(0 <= j && j < len(eps), epOK(eps[j]) && rvOf(eps[j]) >= rv) })
+//@ }
+
+// body of `for _, epInfo := range b.endpoints.All()`: only endpoints with at
+// least the request volume are appended
+//@ func (*outlierDetectionBalancer).endpointsWithAtLeastRequestVolume$1
+//@   prop C40
+//@   requires epOK(epInfo)
+//@   rangeinv allAtLeast(endpoints, requestVolume)
+
+//@ func (*outlierDetectionBalancer).endpointsWithAtLeastRequestVolume
+//@   prop C40
+//@   requires b != nil && b.endpoints != nil
+//@   ensures allAtLeast(result, requestVolume)
+
+// ---- C40: the two ejection algorithms ---------------------------------------------------
+//
+// At the only place where an endpoint is ejected: it is a candidate (request
+// volume, via the candidate list), it fails the criterion, it is not ejected
+// yet (precondition of ejectEndpoint), and the share of ejected endpoints is
+// below max_ejection_percent.
+
+//@ func (*outlierDetectionBalancer).failurePercentageAlgorithm
+//@   prop C40
+//@   requires b != nil && b.endpoints != nil && b.cfg != nil && b.cfg.FailurePercentageEjection != nil
+//@   loop 1 invariant allAtLeast(endpointsToConsider, b.cfg.FailurePercentageEjection.RequestVolume)
+//@   assert at call ejectEndpoint#1 arg0 == b && arg1 == epInfo && rvOf(epInfo) >= b.cfg.FailurePercentageEjection.RequestVolume
+//@   assert at call ejectEndpoint#1 (float64(epInfo.callCounter.inactiveBucket.numFailures) / float64(rvOf(epInfo))) * 100 > float64(b.cfg.FailurePercentageEjection.Threshold)
+//@   assert at call ejectEndpoint#1 !(float64(b.numEndpointsEjected)/float64(lastret("Len"))*100 >= float64(b.cfg.MaxEjectionPercent))
+//@   assert at call ejectEndpoint#1 uint32(lastret("Int32N")) < b.cfg.FailurePercentageEjection.EnforcementPercentage
+
+// float statistics over the candidates: no effect on the modelled state (not verified)
+//@ func (*outlierDetectionBalancer).meanAndStdDev
+//@   trusted
+
+//@ func (*outlierDetectionBalancer).successRateAlgorithm
+//@   prop C40
+//@   requires b != nil && b.endpoints != nil && b.cfg != nil && b.cfg.SuccessRateEjection != nil
+//@   loop 1 invariant allAtLeast(endpointsToConsider, b.cfg.SuccessRateEjection.RequestVolume) && ejectionCfg == b.cfg.SuccessRateEjection && ejectionCfg != nil
+//@   assert at call ejectEndpoint#1 arg0 == b && arg1 == epInfo && rvOf(epInfo) >= b.cfg.SuccessRateEjection.RequestVolume
+//@   assert at call ejectEndpoint#1 float64(epInfo.callCounter.inactiveBucket.numSuccesses)/float64(rvOf(epInfo)) < mean-stddev*(float64(b.cfg.SuccessRateEjection.StdevFactor)/1000)
+//@   assert at call ejectEndpoint#1 !(float64(b.numEndpointsEjected)/float64(lastret("Len"))*100 >= float64(b.cfg.MaxEjectionPercent))
+//@   assert at call ejectEndpoint#1 uint32(lastret("Int32N")) < b.cfg.SuccessRateEjection.EnforcementPercentage
+//@   assert at call meanAndStdDev#1 len(arg1) >= int(b.cfg.SuccessRateEjection.MinimumHosts)
+
+// ---- C40: un-ejection and the multiplier, per endpoint, at every interval -----------------
+//
+// Body of the second `for _, epInfo := range b.endpoints.All()` loop of
+// intervalTimerAlgorithm. An endpoint that is not ejected has its multiplier
+// decreased (not below 0); an ejected one is un-ejected exactly when
+// now > ejection time + min(base*multiplier, max(base, max_ejection_time)).
+
+//@ spec func ejectionDur(b *outlierDetectionBalancer, e *endpointInfo) Z {
+//@   return imin(Z(b.cfg.BaseEjectionTime)*Z(e.ejectionTimeMultiplier), imax(Z(b.cfg.BaseEjectionTime), Z(b.cfg.MaxEjectionTime)))
+//@ }
+
+// The comparison `now().After(uet)` is made against
+// uet = ejection time + min(base*multiplier, max(base, max_ejection_time)), the
+// product taken exactly (precondition: it does not overflow int64 nanoseconds),
+// and the endpoint is un-ejected if and only if that comparison says so.
+//@ func (*outlierDetectionBalancer).intervalTimerAlgorithm$2
+//@   prop C40
+//@   requires b != nil && b.cfg != nil && epOK(epInfo)
+//@   requires Z(b.cfg.BaseEjectionTime)*Z(epInfo.ejectionTimeMultiplier) <= 9223372036854775807 && Z(b.cfg.BaseEjectionTime)*Z(epInfo.ejectionTimeMultiplier) >= -9223372036854775808
+//@   assert at call After#1 !epInfo.latestEjectionTimestamp.IsZero() && arg1 == epInfo.latestEjectionTimestamp.Add(time.Duration(ejectionDur(b, epInfo)))
+//@   assert at call unejectEndpoint#1 arg0 == b && arg1 == epInfo && lastret("After") == 1
+//@   ensures implies(old(epInfo.latestEjectionTimestamp.IsZero()) && old(epInfo.ejectionTimeMultiplier) > 0, epInfo.ejectionTimeMultiplier == old(epInfo.ejectionTimeMultiplier) - 1 && epInfo.latestEjectionTimestamp.IsZero())
+//@   ensures implies(old(epInfo.latestEjectionTimestamp.IsZero()) && old(epInfo.ejectionTimeMultiplier) <= 0, epInfo.ejectionTimeMultiplier == old(epInfo.ejectionTimeMultiplier))
+//@   ensures implies(!old(epInfo.latestEjectionTimestamp.IsZero()), epInfo.ejectionTimeMultiplier == old(epInfo.ejectionTimeMultiplier))
+//@   ensures implies(!old(epInfo.latestEjectionTimestamp.IsZero()), epInfo.latestEjectionTimestamp.IsZero() == (lastret("After") == 1))
+//@   ensures implies(!old(epInfo.latestEjectionTimestamp.IsZero()) && epInfo.latestEjectionTimestamp.IsZero(), b.numEndpointsEjected == old(b.numEndpointsEjected) - 1)
+//@   ensures implies(!epInfo.latestEjectionTimestamp.IsZero() || old(epInfo.latestEjectionTimestamp.IsZero()), b.numEndpointsEjected == old(b.numEndpointsEjected))
+
+// ---- C40: a no-op config un-ejects everything ----------------------------------------------
+
+//@ func (*outlierDetectionBalancer).onNoopConfig$1
+//@   prop C40
+//@   requires b != nil && epOK(epInfo)
+//@   ensures epInfo.latestEjectionTimestamp.IsZero() && epInfo.ejectionTimeMultiplier == 0
+//@   ensures b.numEndpointsEjected == old(b.numEndpointsEjected) - ite(old(epInfo.latestEjectionTimestamp.IsZero()), 0, 1)
+
+// ---- C40: an ejected subchannel looks TRANSIENT_FAILURE to the child --------------------------
+
+//@ monitor subConnWrapper.mu protects healthListener, latestReceivedConnectivityState
+
+//@ func (*subConnWrapper).handleEjection
+//@   prop C40
+//@   opt purecalls healthListener
+//@   requires scw != nil
+//@   assert at call healthListener#1 arg0.ConnectivityState == connectivity.TransientFailure && scw.ejected
+//@   ensures scw.ejected
+
+// while ejected, health updates of the underlying subchannel are recorded but not passed on
+//@ func (*subConnWrapper).updateSubConnHealthState
+//@   prop C40
+//@   opt purecalls healthListener
+//@   requires scw != nil
+//@   assert at call healthListener#1 !scw.ejected && arg0 == scs
+//@   ensures scw.latestHealthState == scs
+
+//@ func (*subConnWrapper).handleUnejection
+//@   prop C40
+//@   requires scw != nil
+//@   assert at call updateSubConnHealthState#1 arg0 == scw && arg1 == old(scw.latestHealthState) && !scw.ejected
+
+// ---- C40: endpoints that leave the resolver's list ----------------------------------------------
+//
+// Body of `for ep, epInfo := range b.endpoints.All()` in UpdateClientConnState:
+// an endpoint deleted from the map while it is ejected stops counting towards
+// the ejected share; nothing else changes the counter here.
+
+//@ func (*outlierDetectionBalancer).UpdateClientConnState$1
+//@   prop C40
+//@   requires b != nil && epInfo != nil
+//@   assert at call Delete#1 arg0 == b.endpoints
+//@   ensures ncalls("Delete") <= 1
+//@   ensures b.numEndpointsEjected == old(b.numEndpointsEjected) - ite(ncalls("Delete") == 1 && !old(epInfo.latestEjectionTimestamp.IsZero()), 1, 0)
+//@   ensures epInfo.ejectionTimeMultiplier == old(epInfo.ejectionTimeMultiplier) && epInfo.latestEjectionTimestamp == old(epInfo.latestEjectionTimestamp)
